@@ -208,6 +208,57 @@ def rule_alias(P):
     return r
 
 
+def ref_glob(pat, name, ic):
+    """shell matching with '*' as the only special character (what evhttp_add_virtual_host documents), optionally without case"""
+    import re as _re
+    if ic:
+        pat, name = pat.lower(), name.lower()
+    rx = b"^" + b".*".join(_re.escape(x) for x in pat.split(b"*")) + b"$"
+    return _re.match(rx, name, _re.S) is not None
+
+
+def rule_glob(P):
+    from ..prog import PStr
+    r = Rule("C30-glob", "K6", "prefix_suffix_match is shell matching with '*' (every pattern x host name of a family, with and without case folding)", floor=300)
+    f = P.fn("prefix_suffix_match")
+    pats = [b"", b"a", b"*", b"a*", b"*a", b"a*b", b"*.example.com", b"www.*", b"**", b"a**b", b"*a*", b"A*", b"*.Example.COM", b"w*w.*.com"]
+    names = [b"", b"a", b"ab", b"ba", b"aab", b"www.example.com", b"example.com", b".example.com", b"www.x", b"A", b"axb", b"ab.c", b"WWW.EXAMPLE.COM", b"www.a.b.com"]
+
+    def hook(el, e_):
+        if callee_name(el.e) == f.name:
+            return "inline"
+        return None
+    nb = 0
+    for pat in pats:
+        for name in names:
+            for ic in (0, 1):
+                env = {"#typed": 1, f.params[0][0]: PStr(pat), f.params[1][0]: PStr(name), f.params[2][0]: ic}
+                vals = set()
+                for o in run_all(f, (f.entry, 0), env, lambda el: False, P, hook, max_steps=6000):
+                    if o.kind == "exit" and o.why == "noreturn":
+                        continue
+                    if o.kind != "ret":
+                        r.brk("prefix_suffix_match(%r, %r): %s %s" % (pat, name, o.kind, o.why))
+                        return r
+                    try:
+                        vals.add(bool(tevalx(normx(o.at.e[1]), o.env, P, f)))
+                    except EvalError as ex:
+                        r.brk("prefix_suffix_match(%r, %r): %s" % (pat, name, ex))
+                        return r
+                want = ref_glob(pat, name, ic)
+                r.inst((pat, name, ic), {"pattern": pat.decode(), "name": name.decode(), "ignorecase": ic, "matches": sorted(vals)} if nb < 3 else None)
+                if vals != {want} and nb < 6:
+                    nb += 1
+                    r.bad("K6:prefix_suffix_match:glob", "%s:%d" % (f.file, f.line), f.name, "pattern %r, name %r, ignorecase %d: %s; shell matching: %s" % (pat, name, ic, "matches" if True in vals else "no match", "matches" if want else "no match"))
+    seen, uniq = set(), []
+    for f_ in r.findings:
+        if f_.key not in seen:
+            seen.add(f_.key)
+            uniq.append(f_)
+    r.findings = uniq
+    return r
+
+
 def run(ctx, config):
     P = ctx.prog(UNITS, config)
-    return [rule_order(P), rule_vhost(P), rule_fold(P), rule_alias(P)]
+    return [rule_order(P), rule_vhost(P), rule_fold(P), rule_alias(P), rule_glob(P)]
